@@ -147,6 +147,16 @@ def gen(ctx):
                             continue
                         tr = [rnd.randrange(-3, 4) for _ in range(N)]
                         cases.append((v, cfg, ("stack", i1, L.LAYS[a], i2, L.LAYS[b], list(sz), tr)))
+    # an OpenMP build (code under `#ifdef _OPENMP` / omp pragmas is compiled in; 4 threads): fields of 2^15 lattice points and more,
+    # so that a copy loop that is only parallelised beyond a size threshold runs parallel
+    for v, szs in (((2, ctx.seed % 2, 3, 0, 0), [[256, 128], [181, 182]]), ((3, (ctx.seed + 1) % 2, 1, 0, 0), [[32, 32, 32], [33, 31, 33]])):
+        variants.append((v, "omp"))
+        ls = lays_for(v[0])
+        for sz in szs if not ctx.quick else szs[:1]:
+            for a in ls:
+                for b in ls:
+                    if a != b and (not ctx.quick or "strided" in (a, b)):
+                        cases.append((v, "omp", ("conv", a, b, list(sz))))
     return variants, cases
 
 
@@ -223,7 +233,8 @@ def evaluate(ctx, variants, cases, full=False):
         mf = [ex.submit(C.run_driver, "convcheck", ch, 0.5, 900) for ch in mchunks]
         # batches of 400 lines: a harness that dies on most inputs (run_lines gives up after 200 deaths per call) then still
         # leaves most batches evaluated
-        hf = {g: [ex.submit(C.run_lines, exes[g], [impl_line(op, full) for _, _, op in cs[k:k + 400]], 0.5, 300)
+        hf = {g: [ex.submit(C.run_lines, exes[g], [impl_line(op, full) for _, _, op in cs[k:k + 400]], 0.5, 300,
+                            None, {"OMP_NUM_THREADS": "4"} if g[1] == "omp" else None)
                   for k in range(0, len(cs), 400)] for g, cs in groups.items()}
         mout = {}
         for ch, f in zip(mchunks, mf):
